@@ -15,10 +15,11 @@ import (
 func init() { register("C33", "exploration", runC33) }
 
 func runC33(c *ev.Ctx) {
-	c.Rule = "a bootstrapped instance gives a live epoch database (roots are registered from frame 2 upward so that a restart's Bootstrap, which replays known roots from frame 1, stays passive); the check then drives its *abft.Store directly with random sequences of 80 operations: AddRoot(selfParentFrame, event) with synthetic events of 4 creators (several roots per creator and frame = fork roots, registrations spanning 1..4 frames), GetFrameRoots(f) for populated, empty and future frames, epoch switches by Reset (to the next epoch number, or to the same or an earlier number again; the harness keeps epoch databases like on-disk databases named after the epoch, so only Drop removes their content), and restarts (new Store over copies of the databases, possibly with another cache configuration); cache configurations RootsNum x RootsFrames from {0,1,2,3,100}^2. " +
-		"Oracle: the returned slice, as a set of (creator, id), equals the model's set for that frame; every entry carries the queried frame; no entry twice; after an epoch switch every frame is empty. " +
+	c.Rule = "a bootstrapped instance gives a live epoch database (roots are registered from frame 2 upward so that a restart's Bootstrap, which replays known roots from frame 1, stays passive); the check then drives its *abft.Store directly with random sequences of 80 operations: AddRoot(selfParentFrame, event) with synthetic events of 4 creators (several roots per creator and frame = fork roots, registrations spanning 1..4 frames), one sequence in eight once puts 101-160 roots into a single frame; GetFrameRoots(f) for populated, empty and future frames, epoch switches by Reset (to the next epoch number, or to the same or an earlier number again; the harness keeps epoch databases like on-disk databases named after the epoch, so only Drop removes their content), and restarts (new Store over copies of the databases, possibly with another cache configuration); cache configurations RootsNum x RootsFrames from {0,1,2,3,100}^2. " +
+		"Plus consensus-made switches: small real DAGs sealed by EndBlock at frame 1..3; right after the sealing Process call frames 0..8 of the new epoch are empty, afterwards each frame holds exactly the roots implied by the new epoch's events. Oracle: the returned slice, as a set of (creator, id), equals the model's set for that frame; every entry carries the queried frame; no entry twice; after an epoch switch every frame is empty. " +
 		"non-trivial = distinct sequences in which a frame was queried, then received another root (also through a multi-frame registration), then was queried again, with a cache smaller than the number of roots or frames in play"
 	c.Assumptions = []string{"each (event, frame) is registered once, as the orderer does", "AddRoot/GetFrameRoots are used from one goroutine (documented as not thread-safe)"}
+	c.Parallel(c.Pick(400, 8000), 0, func(i int) { c33Sealed(c, i) })
 	n := c.Pick(6000, 200000)
 	sizes := []int{0, 1, 2, 3, 100}
 	c.Parallel(n, 0, func(i int) {
@@ -41,7 +42,38 @@ func runC33(c *ev.Ctx) {
 		fail := func(why string) {
 			c.Violation("root-registry-differs-from-model", map[string]interface{}{"case": i, "cache": fmt.Sprintf("%+v", scfg.Cache), "ops": log, "why": why})
 		}
+		bulkAt := -1
+		if i%8 == 0 {
+			bulkAt = r.Intn(80) // once in such a sequence: more than 100 roots land in one frame
+		}
 		for op := 0; op < 80; op++ {
+			if op == bulkAt {
+				sp := idx.Frame(1 + r.Intn(5))
+				cnt := 101 + r.Intn(60)
+				log = append(log, fmt.Sprintf("AddRoot x%d (sp=%d, frame=%d)", cnt, sp, sp+1))
+				for q := 0; q < cnt; q++ {
+					e := &cons.Ev{}
+					e.SetEpoch(epoch)
+					e.SetCreator(ids[r.Intn(4)])
+					e.SetFrame(sp + 1)
+					e.SetLamport(idx.Lamport(1 + r.Intn(3)))
+					nid++
+					e.SetID([24]byte{byte(nid), byte(nid >> 8), byte(r.Intn(3))})
+					if p, _ := ev.Try(func() { in.Store.AddRoot(sp, e) }); p != nil {
+						fail(fmt.Sprint("AddRoot panics: ", p))
+						return
+					}
+					if model[sp+1] == nil {
+						model[sp+1] = map[string]bool{}
+					}
+					model[sp+1][fmt.Sprintf("%d/%s", e.Creator(), e.ID().Hex())] = true
+				}
+				if queried[sp+1] {
+					addedAfterQuery[sp+1] = true
+				}
+				c.Count("frames_with_more_than_100_roots", 1)
+				continue
+			}
 			switch k := r.Intn(20); {
 			case k < 8:
 				e := &cons.Ev{}
